@@ -242,6 +242,9 @@ def run(tier):
                    "output_head": (out or b"")[:600].decode("utf-8", "replace"), "history": [[h["before"]["kind"], h["input"], h["env"]] for h in behaviours[bi]]}
             cts = ciphertexts(out)
             has_output = bool(out and out.strip())
+            if kind in ("absent", "empty", "validNL") and x["run"] == 2:
+                v.sample({"history": rep["history"], "run": x["run"], "key_path_before": kind, "input": x["input"], "exit": rc, "key_path_after": rep["after"],
+                          "output_lines": (out or b"").count(b"\n"), "syscall_events": [e["ev"] for e in ev] if ev else None}, limit=4)
             if kind in ("empty", "short", "long", "nonb64", "dir", "unreadable"):
                 if rc == 0:
                     v.violation("an unusable key file (%s) does not make the run fail" % kind, rep)
